@@ -661,8 +661,6 @@ def install(extra_np=(), extra_float=(), extra_int=(), extra_maxmin=()):
     for m in (S, BR, SM, SQ, pl) + tuple(extra_maxmin):
         m.max = smax
         m.min = smin
-    aa.int = sym_int
-    aa.float = sym_float
     if not _INSTALLED[0]:
         if hasattr(wf.Waveform.modulation_buffers, "__wrapped__"):
             wf.Waveform.modulation_buffers = wf.Waveform.modulation_buffers.__wrapped__
